@@ -71,7 +71,7 @@ def run_directed(chk, n):
         cons = lambda: comp("q", only=r.random() < 0.3)
         n_cons = r.randint(1, 3)
         many = [cons() for _ in range(n_cons)]
-        schema = r.randrange(8)
+        schema = r.randrange(10)
         wrapper = {"name": "p", "data": [], "template": []}
         if schema == 0:      # provider around a slot; consumers arrive through the fill
             wrapper["template"] = [prov(key, lit("IN"), [T("("), slot("s1", [T("d")]), T(")")])]
@@ -94,6 +94,25 @@ def run_directed(chk, n):
         elif schema == 5:    # the same key around the fill site AND around the slot: the slot's provider is nearer
             wrapper["template"] = [prov(key, lit("IN"), [T("("), slot("s1", [T("d")]), T(")")])]
             page = [prov(key, lit("OUT"), [comp("p", [fill("s1", many)]), T("|")] + many)]
+        elif schema in (8, 9):   # the same key nested, the nearer provider's payload positionally equal to the outer one's but
+            # under another keyword name (8) or the same name (9): the consumer gets the *nearer* provider's fields
+            # (seeded/C05-5: a nearer provider whose payload compares equal as a tuple was dropped)
+            val = lit(r.choice(["V", "W"]))
+            inner_kw = "k2" if schema == 8 else "k1"
+            whole = {"name": "q", "template": [T("["), {"t": "out", "e": var("g")}, T("|"), {"t": "out", "e": var("g", inner_kw)}, T("]")],
+                     "data": [["g", {"inject": key, "dflt": dflt}]]}
+            consumer = whole
+            inner = {"t": "provide", "key": key, "kwargs": [[inner_kw, val]], "body": many}
+            place = r.randrange(3)
+            if place == 0:
+                wrapper["template"] = [slot("s1", [])]
+                page = [prov(key, val, [inner, T("|")] + many)]
+            elif place == 1:
+                wrapper["template"] = [T("("), inner, T(")")]
+                page = [prov(key, val, [comp("p"), T("|")] + many)]
+            else:
+                wrapper["template"] = [{"t": "provide", "key": key, "kwargs": [[inner_kw, val]], "body": [slot("s1", [T("d")])]}]
+                page = [prov(key, val, [comp("p", [fill("s1", many)])])]
         else:                # outside every provider
             wrapper["template"] = [slot("s1", many)]
             page = [comp("p"), prov(other, lit("Z"), many)]
